@@ -107,6 +107,13 @@ def oracle_bands(rows, n, kind='plain', cols=3):
             nxt += h
         if nxt != rows:
             return True, 'last-band-short', 'rows=%d bands=%d: bands cover rows [0,%d) only' % (rows, n, nxt)
+        # reading bands must not change what a later read of the whole file returns (same process, same file)
+        wd, whd = ft.load_image_band(fn, cube_index=1) if kind == 'cube4' else ft.load_image_band(fn)
+        wd = np.squeeze(np.array(wd))
+        if kind == 'cube4':
+            wd = wd - 1000
+        if wd.shape != img.shape or not np.array_equal(wd, img) or int(whd['NAXIS2']) != rows:
+            return True, 'whole-file-after-bands-' + kind, 'after reading %d bands, the whole %s file comes back with shape %s (NAXIS2=%s) instead of %s' % (n, kind, wd.shape, whd['NAXIS2'], img.shape)
         return False, None, None
     finally:
         shutil.rmtree(d, ignore_errors=True)
